@@ -15,10 +15,10 @@
 (* for "distinct" and "single" and refutes it for "any" (a swapped pair with   *)
 (* equal or default values comes back unchanged).                              *)
 EXTENDS Integers, FiniteSets, TLC
-CONSTANTS Keys, NVals, InputClass
+CONSTANTS Keys, NVals, InputClasses
 Default == 0
 Vals == 0..NVals
-VARIABLES w, vals
+VARIABLES w, vals, InputClass
 Id == [k \in Keys |-> k]
 Rebuild(wr, v) == [k \in Keys |-> IF wr[k] = "none" THEN Default ELSE v[wr[k]]]
 NonDefault(v) == {k \in Keys : v[k] # Default}
@@ -29,8 +29,9 @@ InClass(v) == CASE InputClass = "distinct" -> /\ NonDefault(v) = Keys
 Unfaithful(wr, v) == IF InputClass = "single" THEN \E k \in NonDefault(v) : wr[k] # k ELSE wr # Id
 Init == /\ w \in [Keys -> Keys \cup {"none"}]
         /\ vals \in [Keys -> Vals]
-Next == UNCHANGED <<w, vals>>
-Spec == Init /\ [][Next]_<<w, vals>>
+        /\ InputClass \in InputClasses
+Next == UNCHANGED <<w, vals, InputClass>>
+Spec == Init /\ [][Next]_<<w, vals, InputClass>>
 Exposes == (InClass(vals) /\ Unfaithful(w, vals)) => Rebuild(w, vals) # vals
 Faithful == Rebuild(Id, vals) = vals
 =============================================================================
